@@ -156,7 +156,12 @@ func buildWorkflow(s *spec.Spec) (*sp.Workflow, map[string]*node) {
 			}
 			p.Prepend = ps.Prepend
 			if ps.Kind == spec.KGoFunc {
-				if ps.WriteAPI {
+				if ps.ExecCmd {
+					// a Go function that shells out through the library's helper; the tool writes into the task's temp directory
+					p.CustomExecute = func(t *sp.Task) {
+						sp.ExecCmd("cd " + t.TempDir() + " && " + t.Command + " && cd ..")
+					}
+				} else if ps.WriteAPI {
 					p.CustomExecute = func(t *sp.Task) { goFuncWriteAPI(ps, t) }
 				} else {
 					p.CustomExecute = func(t *sp.Task) { goFunc(ps, t) }
